@@ -128,7 +128,10 @@ class C04(Check):
                 if base[0] is None:
                     base[0] = i
                 if i - base[0] == idx:
-                    return fault
+                    return fault if fault[0] != "swsticky" else ("sw", fault[1])
+                if fault[0] == "swsticky" and i - base[0] > idx:
+                    # an application that is gone answers the same to whatever comes next
+                    return ("sw", fault[1])
                 return None
             w.inject = inject
         proto = harness.make_protocol(w, v1=v1, debug=getattr(self, "debug_dongle", False))
@@ -207,6 +210,13 @@ class C04(Check):
             sws = self.small_sws if case.get("small") else self.quick_sws
         for sw in sws:
             self.one(name, idx, ("sw", sw), stats, vs)
+        if case.get("other") and not case.get("small"):
+            # the status word stays: every later exchange of the request is answered the same way
+            # (what a device does whose application is gone); nothing the manager sends after a
+            # failure - diagnostics, clean-up - may change the verdict
+            kind = self.nominal[name]["kinds"][idx]
+            for sw in sorted(set(fwtables.named_causes(kind)) | {0x6D00, 0x6A01, 0x6B87, 0x6B90, 0x6E00, 0x6F00}):
+                self.one(name, idx, ("swsticky", sw), stats, vs)
         if case.get("other"):
             for k in ("timeout", "write", "read"):
                 self.one(name, idx, (k,), stats, vs)
@@ -225,7 +235,10 @@ class C04(Check):
         w, o = self.run(name, (idx, fault))
         code = o.reply.get("errorcode") if isinstance(o.reply, dict) else None
         fk = fault[0]
-        stats.observe((name, kind, fk, code, o.exc, fault[1] if fk == "sw" and 0x69A0 <= fault[1] <= 0x6BFF and False else None))
+        sticky = fk == "swsticky"
+        if sticky:
+            fk = "sw"
+        stats.observe((name, kind, fault[0], code, o.exc, fault[1] if fk == "sw" and 0x69A0 <= fault[1] <= 0x6BFF and False else None))
         if fk == "sw":
             stats.add_set("codes_by_kind", (kind, code))
         stats.sample({"command": name, "index": idx, "step": kind, "fault": list(fault),
@@ -243,7 +256,8 @@ class C04(Check):
         else:
             allowed = set(self.doc[fwtables.DOC_TITLES[cmd]]) | self.generic
         in_range = fk == "sw" and (0x69A0 <= fault[1] <= 0x6BFF or fault[1] == 0x6D00)
-        where = "%s@%s" % (fk if fk != "sw" else ("sw-in-range" if in_range else "sw-out-of-range"), kind)
+        where = "%s%s@%s" % (fk if fk != "sw" else ("sw-in-range" if in_range else "sw-out-of-range"),
+                             "-sticky" if sticky else "", kind)
         if fk == "opbyte" and nom["lens"][idx] == 3 and fault[1] != nom["ops"][idx] \
                 and fault[1] in CHUNK_OPS.get(cmd, set()):
             stats.dont_care += 1
